@@ -176,7 +176,24 @@ def membership(ctx, prog):
                 for b3, t3 in parent.calls():
                     if callee_path(t3).endswith("HashMap::<K, V, S, A>::retain") and any(s.kind == "agg" and s.adt == body.id for a in t3["args"] for s in flatten_src(provenance(parent, a))):
                         used_in_retain = True
-            if empties and used_in_retain:
+            # the closure's verdict (what retain keeps) is `!group.is_empty()`, not merely some call of is_empty
+            keeps_nonempty = False
+            for blk in body.blocks:
+                for st in blk["s"]:
+                    if "lhs" in st and st["lhs"]["l"] == 0 and not st["lhs"].get("p"):
+                        if st["rv"]["k"] == "un" and st["rv"]["op"] == "Not":
+                            inner = flatten_src(provenance(body, st["rv"]["a"]))
+                            keeps_nonempty = keeps_nonempty or any(x.kind == "call" and x.path.endswith("SharedGroup::is_empty") for x in inner)
+                        elif st["rv"]["k"] == "use":
+                            def walk(srcs):
+                                for x in srcs:
+                                    if x.kind == "op" and x.name == "Not" and any(y.kind == "call" and y.path.endswith("SharedGroup::is_empty") for a in x.args for y in flatten_src(a)):
+                                        return True
+                                    if x.kind == "op" and any(walk(a) for a in x.args):
+                                        return True
+                                return False
+                            keeps_nonempty = keeps_nonempty or walk(provenance(body, st["rv"]["a"]))
+            if empties and used_in_retain and keeps_nonempty:
                 ctx.ok(rule, body.id, "remove_client inside shared_subscriptions.retain(.. !is_empty())", site=body.loc(t.get("sp")))
             else:
                 ctx.violation(rule, body.id, "empty group kept", "after removing a member the (possibly empty) group is kept: update_next_client would divide by zero / messages would be read for nobody", site=body.loc(t.get("sp")))
